@@ -31,6 +31,14 @@ CLAIMED = {
             'Same runs as C02 restricted to the history obligations: after exiting an owner the stored history equals the reference record computed from the pre-configuration (shallow: active children, deep: active atomic descendants); a transition targeting a history state enters exactly the reference set, and the default-transition content appears in the trace iff nothing was recorded, after the owner onentry.',
             'Trusted: as C02. Bounds: 5 catalogue shapes with history (shallow in compound, deep, shallow inside a parallel region, shallow owned by a parallel, deep above nested parallels), every legal recorded value, T <= 2.',
             'DESIGN.md §4 C06'),
+    'C03': ('model_checking', 'symbolic execution of rustc MIR (mirsym) + z3: the real mainEventLoop on a pre-loaded queue vs a reference macrostep loop',
+            'Bounded symbolic model checking against a reference: the real mainEventLoop + exitInterpreter run on an external queue holding symbolic events followed by the platform cancel event, with symbolic transitions (trigger in {event-less guarded, external, internal}), bodies that raise internal events and an arbitrary legal start configuration; the complete trace of events made current, guard evaluations and content bodies equals the reference run-to-completion loop on every feasible path (event-less first, then oldest internal event, external events once each in order, no effect for events without transition).',
+            'Trusted: mirsym + environment models (mpsc as FIFO), reference loop in harness/src/sc.rs. Bounds: shapes <= 5 states quick (<= 9 thorough), T <= 3, 2 external events, <= 6 raises, <= 12 microsteps; live-locking documents excluded.',
+            'DESIGN.md §4 C03'),
+    'C07': ('model_checking', 'symbolic execution of rustc MIR (mirsym) + z3: done events in microsteps, exitInterpreter and the loop tail vs reference',
+            'Bounded symbolic model checking: (a) microsteps entering final states on shapes with finals at every level and inside parallel regions produce exactly the reference internal queue (done.state.<parent>, then done.state.<parallel> iff every region is final) and clear `running` exactly for a top-level final; (b) exitInterpreter from every legal configuration of every catalogue shape runs each onexit once in exit order, reports the final configuration, and sends done.invoke.<id> to the parent iff a parent session exists and a top-level final is active; (c) the main loop stops processing after a top-level final / cancel with events still queued.',
+            'Trusted: as C02/C03; platform send replaced by a recording stub. Bounds as C01/C03.',
+            'DESIGN.md §4 C07'),
 }
 NA_REASON = {}
 
